@@ -249,3 +249,7 @@ Proof.
   - split; [assumption|lia].
   - split; [|auto]. split; [unfold pinv; now rewrite D, F|intros; assumption].
 Qed.
+Lemma path_del_keep p c p' : path_del p = (c, p') -> pelems p <> [] -> pkeep p' = false.
+Proof.
+  unfold path_del. destruct (pelems p); intros X NE; [now destruct NE|]. inversion X. reflexivity.
+Qed.
